@@ -872,12 +872,20 @@ class Interp:
                 return self.eval(node.body, env)
             return self.eval(node.orelse, env)
         if isinstance(node, ast.Attribute):
-            return self.getattr(self.eval(node.value, env), node.attr)
+            attr = node.attr
+            if attr.startswith('__') and not attr.endswith('__') and self.x.cls is not None:
+                attr = '_%s%s' % (self.x.cls.name.lstrip('_'), attr)        # private name mangling inside a class body
+            return self.getattr(self.eval(node.value, env), attr)
         if isinstance(node, ast.Subscript):
             return self.subscript(self.eval(node.value, env), node.slice, env)
         if isinstance(node, ast.Call):
             f = self.eval(node.func, env)
             args = []
+            if isinstance(node.func, ast.Name) and node.func.id == 'super' and not node.args and not node.keywords:
+                # zero-argument super(): bound to the CURRENT value of the first parameter
+                a0 = (self.x.node.args.posonlyargs + self.x.node.args.args)
+                if a0 and a0[0].arg in env:
+                    return self.call(f, [env[a0[0].arg]], {})
             for a in node.args:
                 if isinstance(a, ast.Starred):
                     sv = self.eval(a.value, env)
@@ -969,6 +977,12 @@ class Interp:
                 return self.eval(node.elt, inner)
             facts = getattr(it, 'facts', None)
             return IterV(at, it.length, 'map(%s)' % it.name, facts)
+        if isinstance(it, FilterV) and not g.ifs and isinstance(node, (ast.GeneratorExp, ast.ListComp)):
+            def elt2(k, _it=it, _env=dict(env)):
+                inner = dict(_env)
+                self.assign(g.target, _it.elt(k), inner)
+                return self.eval(node.elt, inner)
+            return FilterV(it.base, it.cond, elt2)
         if isinstance(it, (IterV, SeqV)) and g.ifs and isinstance(node, (ast.GeneratorExp, ast.ListComp)):
             # pure filter(+map) over a contract iterable: kept as a descriptor (base sequence, condition, element)
             def cond(k, _it=it, _env=dict(env)):
@@ -1068,6 +1082,8 @@ class Interp:
             if isinstance(op, ast.Mult):
                 return IntV(a.t * b.t)
             raise Unsupported('int operator %s' % type(op).__name__)
+        if isinstance(a, StrV) and isinstance(op, ast.Mod):
+            return StrV(None, parts=[('fmt', a, -1, None), ('fmt', b, -1, '%')])      # %-formatting: an opaque text of its operands
         if isinstance(a, BoolV) and isinstance(b, (BoolV, IntV)) or isinstance(a, IntV) and isinstance(b, BoolV):
             raise Unsupported('arithmetic on bool')
         if isinstance(a, ListV) and isinstance(b, ListV) and isinstance(op, ast.Add):
@@ -1188,6 +1204,13 @@ class Interp:
                         raise PyRaise('IndexError')
                     return _o.items.pop()
                 return FuncV('list.pop', _pop)
+        if isinstance(o, StrV) and attr == 'join':
+            def _join(p, args, kw, _o=o):
+                it = args[0]
+                if isinstance(it, (IterV, SeqV, FilterV, ListV, TupleV)):
+                    return StrV(None, parts=[('fmt', _o, -1, 'join')])
+                raise Unsupported('str.join of %r' % (it,))
+            return FuncV('str.join', _join)
         raise Unsupported('attribute .%s on %s' % (attr, type(o).__name__))
 
     def subscript(self, o, sl, env):
